@@ -274,9 +274,9 @@ func TestVerifGrandpaProtocol(t *testing.T) {
 				continue
 			}
 			s := w.svc[st.V]
-			// conformance of the tally / choice functions is C21's and C18's statement: such
-			// disagreements carry their signature (and are decided by those checks); C22 owns the
-			// round driver, fork choice at prevote time and the safety statement itself
+			// the model follows lib/grandpa's own tally / choice / commit-acceptance rules (C21's and
+			// C18's ideal statements are checked by their own specifications); any step where a real
+			// voter does something else than the model breaks the safety argument made on the model
 			failTo := func(owner, field, exp, got, sig string) {
 				res.Fail(b.ID, si, st.A, field, exp, got, owner+"/"+sig, map[string]any{"safe": beh.Safe, "nv": beh.NV, "byz": beh.Byz,
 					"parent": beh.Parent, "commitMin": beh.CommitMin, "steps": beh.Steps[:si+1]})
@@ -325,7 +325,7 @@ func TestVerifGrandpaProtocol(t *testing.T) {
 					}
 					res.Cmp()
 					if got := w.blockOf(v.Hash); got != st.B {
-						failTo("C21", "block", fmt.Sprint(st.B), fmt.Sprint(got), "protocol/Precommit/ghost")
+						failTo("C22", "block", fmt.Sprint(st.B), fmt.Sprint(got), "protocol/Precommit/ghost")
 						return
 					}
 					sv, vm, err := s.createSignedVoteAndVoteMessage(v, precommit)
@@ -341,12 +341,12 @@ func TestVerifGrandpaProtocol(t *testing.T) {
 					fin, err := s.attemptToFinalize()
 					res.Cmp()
 					if err != nil || !fin {
-						failTo("C21", "finalised", fmt.Sprintf("block %d finalised", st.B), fmt.Sprintf("finalizable=%v err=%v", fin, err), "protocol/Finalise/refused")
+						failTo("C22", "finalised", fmt.Sprintf("block %d finalised", st.B), fmt.Sprintf("finalizable=%v err=%v", fin, err), "protocol/Finalise/refused")
 						return
 					}
 					h, err := w.bs[st.V].GetFinalisedHash(st.R, 0)
 					if err != nil || w.blockOf(h) != st.B {
-						failTo("C21", "block", fmt.Sprint(st.B), fmt.Sprintf("%d err=%v", w.blockOf(h), err), "protocol/Finalise/block")
+						failTo("C22", "block", fmt.Sprint(st.B), fmt.Sprintf("%d err=%v", w.blockOf(h), err), "protocol/Finalise/block")
 					}
 				case "AcceptCommit":
 					cm := w.commit(st.R, st.B, st.D)
@@ -354,7 +354,7 @@ func TestVerifGrandpaProtocol(t *testing.T) {
 					res.Cmp()
 					h, herr := w.bs[st.V].GetFinalisedHash(st.R, 0)
 					if err != nil || herr != nil || w.blockOf(h) != st.B {
-						failTo("C18", "accepted", fmt.Sprintf("commit for block %d round %d accepted", st.B, st.R),
+						failTo("C22", "accepted", fmt.Sprintf("commit for block %d round %d accepted", st.B, st.R),
 							fmt.Sprintf("err=%v finalised=%d (%v)", err, w.blockOf(h), herr), "protocol/AcceptCommit/refused")
 						return
 					}
@@ -370,7 +370,7 @@ func TestVerifGrandpaProtocol(t *testing.T) {
 					res.Cmp()
 					after := fmt.Sprint(w.finalisedOf(st.V))
 					if err == nil || before != after {
-						failTo("C18", "rejected", "commit one precommit short of a supermajority is refused and finalises nothing",
+						failTo("C22", "rejected", "commit one precommit short of a supermajority is refused and finalises nothing",
 							fmt.Sprintf("err=%v finalised before=%s after=%s", err, before, after), "protocol/RejectCommit/accepted")
 					}
 				case "NextRound":
